@@ -91,7 +91,7 @@ static void *mix_trier(void *arg)
     others_busy = acq_now(&s0);
     ok = do_trylock();
     busy_after = acq_now(&s1);
-    if (mc_in_call_blocked()) { snprintf(sig, sizeof sig, "%s/trylock-blocked", kn()); mc_fail("C01", sig, "the thread had to wait inside trylock (trylock must never block)"); }
+    if (!mc_is_free_running() && mc_in_call_blocked()) { snprintf(sig, sizeof sig, "%s/trylock-blocked", kn()); mc_fail("C01", sig, "the thread had to wait inside trylock (trylock must never block)"); }
     if (ok) { enter_cs("trylock"); do_unlock(); mc_nontrivial(1); }
     else {
         mc_nontrivial(2);
